@@ -73,6 +73,7 @@ type frame struct {
 	defersRun bool
 	recoverCalled bool
 	debugVars map[string]debugVar
+	parent    *frame
 }
 
 type debugVar struct {
@@ -406,16 +407,16 @@ func (vc *VC) loadLoc(m Mem, l *Loc) string {
 			st := under(l.BaseT).(*types.Struct)
 			fs := make([]string, st.NumFields())
 			for i := range fs {
-				fs[i] = app("select", vc.get(m, vc.fieldComp(l.BaseT, i)), l.Ref)
+				fs[i] = app("select", vc.get(m, vc.locFieldComp(l, i)), l.Ref)
 			}
 			return vc.mkStruct(l.BaseT, fs)
 		}
 		f := path[0].Field
-		cur = app("select", vc.get(m, vc.fieldComp(l.BaseT, f)), l.Ref)
+		cur = app("select", vc.get(m, vc.locFieldComp(l, f)), l.Ref)
 		curT = under(l.BaseT).(*types.Struct).Field(f).Type()
 		path = path[1:]
 	} else {
-		cur = app("select", vc.get(m, vc.cellComp(l.BaseT)), l.Ref)
+		cur = app("select", vc.get(m, vc.locCellComp(l)), l.Ref)
 		curT = l.BaseT
 	}
 	for _, st := range path {
@@ -466,19 +467,19 @@ func (vc *VC) storeLoc(m Mem, l *Loc, nv string) {
 		st := under(l.BaseT).(*types.Struct)
 		if len(path) == 0 {
 			for i := 0; i < st.NumFields(); i++ {
-				c := vc.fieldComp(l.BaseT, i)
+				c := vc.locFieldComp(l, i)
 				vc.set(m, c, app("store", vc.get(m, c), l.Ref, app(vc.fieldAcc(l.BaseT, i), nv)))
 			}
 			return
 		}
 		f := path[0].Field
-		c := vc.fieldComp(l.BaseT, f)
+		c := vc.locFieldComp(l, f)
 		F := vc.get(m, c)
 		old := app("select", F, l.Ref)
 		vc.set(m, c, app("store", F, l.Ref, vc.updatePath(st.Field(f).Type(), old, path[1:], nv)))
 		return
 	}
-	c := vc.cellComp(l.BaseT)
+	c := vc.locCellComp(l)
 	C := vc.get(m, c)
 	old := app("select", C, l.Ref)
 	vc.set(m, c, app("store", C, l.Ref, vc.updatePath(l.BaseT, old, path, nv)))
@@ -790,7 +791,14 @@ func (fr *frame) instr(ins ssa.Instruction, back map[[2]int]bool) {
 			}
 		}
 	case *ssa.Alloc:
-		fr.setValRaw(x, fr.allocVal(x.Type().(*types.Pointer).Elem(), fr.pfx+x.Name()))
+		v := fr.allocVal(x.Type().(*types.Pointer).Elem(), fr.pfx+x.Name())
+		if v.L == nil && !allocEscapes(x) {
+			t := x.Type().(*types.Pointer).Elem()
+			v = Val{T: v.T, L: &Loc{Ref: v.S, BaseT: t, T: t, Private: fr.pfx + x.Name()}}
+			// re-initialise in the private components
+			fr.vc.storeLoc(fr.mem, v.L, fr.vc.zero(t))
+		}
+		fr.setValRaw(x, v)
 	case *ssa.Store:
 		p := fr.val(x.Addr)
 		v := fr.val(x.Val)
@@ -845,6 +853,7 @@ func (fr *frame) instr(ins ssa.Instruction, back map[[2]int]bool) {
 		fr.setVal(x, Val{T: x.Type(), S: v.S})
 	case *ssa.ChangeType:
 		v := fr.val(x.X)
+		fr.mentionHook(x.X, x.Type(), v, x.Pos())
 		v.T = x.Type()
 		if v.L != nil {
 			fr.vals[x] = v
@@ -948,6 +957,103 @@ func (fr *frame) instr(ins ssa.Instruction, back map[[2]int]bool) {
 }
 
 func (fr *frame) setValRaw(v ssa.Value, r Val) { fr.vals[v] = r }
+
+// mentionHook (C04): converting a non-constant string to one of the coq name
+// types constructs a mention of a top-level name; the dependency must already
+// have been recorded in the current dependency tracker.
+func (fr *frame) mentionHook(src ssa.Value, to types.Type, v Val, pos token.Pos) {
+	n, ok := types.Unalias(to).(*types.Named)
+	if !ok || n.Obj().Pkg() == nil || !strings.HasSuffix(n.Obj().Pkg().Path(), "/internal/coq") {
+		return
+	}
+	switch n.Obj().Name() {
+	case "StructName":
+	case "TypeIdent", "GallinaIdent":
+		if !nameSource(src) {
+			return
+		}
+	default:
+		return
+	}
+	fr.mentionHookNamed(src, n.Obj().Name(), v, pos)
+}
+
+func (fr *frame) mentionHookNamed(src ssa.Value, what string, v Val, pos token.Pos) {
+	vc := fr.vc
+	if !vc.P.checkMentions {
+		return
+	}
+	if _, isConst := src.(*ssa.Const); isConst {
+		return
+	}
+	if vc.sortOf(v.T) != sStr {
+		return
+	}
+	// the dependency tracker of the enclosing translator method
+	var ctx *Val
+	for f := fr; f != nil && ctx == nil; f = f.parent {
+		for i, p := range f.fn.Params {
+			if p.Name() == "ctx" && i < len(f.paramVals()) {
+				pv := f.paramVals()[i]
+				ctx = &pv
+			}
+		}
+	}
+	if ctx == nil {
+		return
+	}
+	st, ok := under(ctx.T).(*types.Struct)
+	if !ok {
+		return
+	}
+	depRef := ""
+	for i := 0; i < st.NumFields(); i++ {
+		if st.Field(i).Name() == "dep" {
+			depRef = app(vc.fieldAcc(ctx.T, i), ctx.S)
+		}
+	}
+	if depRef == "" {
+		return
+	}
+	comp := vc.comp("G:depset", "(Array Int (Array String Bool))")
+	label := vc.P.srcText(fr.fn, pos, "call")
+	if label == "" {
+		label = what
+	}
+	key := "mention " + label
+	goal := app("select", app("select", vc.get(fr.mem, comp), depRef), v.S)
+	vc.oblige("dep-recorded", fmt.Sprintf("%s/dep-recorded[%s#%d]", vc.Name, fr.siteLabel(label), fr.occ(key+fr.fn.Name())), fr.guard, goal, fr.pos(pos))
+}
+
+// nameSource: the string is the name of an identifier or a qualified / method name
+func nameSource(v ssa.Value) bool {
+	switch x := v.(type) {
+	case *ssa.UnOp:
+		if fa, ok := x.X.(*ssa.FieldAddr); ok {
+			if pt, ok := fa.X.Type().Underlying().(*types.Pointer); ok {
+				if n, ok := pt.Elem().(*types.Named); ok && n.Obj().Name() == "Ident" && n.Obj().Pkg() != nil && n.Obj().Pkg().Path() == "go/ast" {
+					return true
+				}
+			}
+		}
+	case *ssa.Call:
+		if f := x.Call.StaticCallee(); f != nil {
+			switch f.Name() {
+			case "qualifiedName", "MethodName", "InterfaceMethodName":
+				return true
+			}
+		}
+	}
+	return false
+}
+
+func (fr *frame) paramVals() []Val {
+	var out []Val
+	for _, p := range fr.fn.Params {
+		out = append(out, fr.vals[p])
+	}
+	return out
+}
 
 func (fr *frame) asTerm(v Val) string {
 	if v.L != nil {
@@ -1503,4 +1609,41 @@ func (fr *frame) siteLabel(s string) string {
 		return s + " in " + fr.fn.Name()
 	}
 	return s
+}
+
+// allocEscapes: may the address of this allocation be seen by anything but
+// loads, stores and field/index address computations of this function?
+func allocEscapes(a *ssa.Alloc) bool {
+	var visit func(v ssa.Value, depth int) bool
+	visit = func(v ssa.Value, depth int) bool {
+		refs := v.Referrers()
+		if refs == nil || depth > 6 {
+			return true
+		}
+		for _, r := range *refs {
+			switch x := r.(type) {
+			case *ssa.DebugRef:
+			case *ssa.UnOp:
+				if x.Op != token.MUL {
+					return true
+				}
+			case *ssa.Store:
+				if x.Val == v {
+					return true
+				}
+			case *ssa.FieldAddr:
+				if visit(x, depth+1) {
+					return true
+				}
+			case *ssa.IndexAddr:
+				if visit(x, depth+1) {
+					return true
+				}
+			default:
+				return true
+			}
+		}
+		return false
+	}
+	return visit(a, 0)
 }
